@@ -18,8 +18,8 @@ def generated_model():
     import os, shutil, subprocess, tempfile
     from core import TL_ROOT, COQ_DIR
     import py2coq
-    res = {'scope': 'ObsTime.isLeapYear, readUnixTime, toAbsTime on whole seconds ((int)(a / b) is Z.quot, the term + ms / 1000.0 kept apart) and the comparison methods __eq__ __ne__ __lt__ __gt__ __le__ __ge__ (the isinstance guard of __eq__ is the typing of the model)',
-           'proof': 'coq/GenProofs/ObsTimeGen_eq.v: gen_readUnixTime_eq, gen_toAbsTime_eq, gen_lt_eq, gen_gt_eq, gen_eq_eq, gen_ne_eq, gen_ge_eq, gen_le_eq; restated theorems gen_seconds_roundtrip, gen_calendar_roundtrip, gen_lt_iff, gen_gt_iff, gen_eq_iff'}
+    res = {'scope': 'ObsTime.isLeapYear, readUnixTime, toAbsTime on whole seconds ((int)(a / b) is Z.quot, the term + ms / 1000.0 kept apart) and the comparison methods __eq__ __ne__ __lt__ __gt__ __le__ __ge__ (the isinstance guard of __eq__ is the typing of the model), addSec / addMin / addHour / addDay and __sub__ (whole-second part)',
+           'proof': 'coq/GenProofs/ObsTimeGen_eq.v: gen_readUnixTime_eq, gen_toAbsTime_eq, gen_lt_eq, gen_gt_eq, gen_eq_eq, gen_ne_eq, gen_ge_eq, gen_le_eq, gen_addSec_eq, gen_addMin_eq, gen_addHour_eq, gen_addDay_eq, gen_sub_eq; restated theorems gen_seconds_roundtrip, gen_calendar_roundtrip, gen_addSec_ok, gen_lt_iff, gen_gt_iff, gen_eq_iff'}
     try:
         text = py2coq.translate_obstime(os.path.join(TL_ROOT, 'tracklib', 'core', 'obs_time.py'))
     except (py2coq.Untranslatable, SyntaxError) as e:
@@ -33,7 +33,7 @@ def generated_model():
             if p.returncode != 0:
                 return dict(res, ok=False, what='%s no longer checks against the generated text' % ('the generated file' if f == 'ObsTimeGen.v' else 'the equivalence proof'), tail=(p.stdout + p.stderr)[-800:])
         closed = (p.stdout + p.stderr).count('Closed under the global context')
-        return dict(res, ok=True, what='checked', tail='', print_assumptions='%d of 4 closed under the global context' % closed, generated_chars=len(text))
+        return dict(res, ok=True, what='checked', tail='', print_assumptions='%d of 5 closed under the global context' % closed, generated_chars=len(text))
     finally:
         shutil.rmtree(d, ignore_errors=True)
 
